@@ -51,31 +51,6 @@ def _solve_bounded_lp(c: Any, a_ub: Any, b_ub: Any) -> Any:
         trusted = abs(dual - res["fun"]) <= 1e-9 * (1 + abs(res["fun"]))  # noqa: WPS432 magic number
     if not trusted:
         res = linprog(c=c, A_ub=a_ub, b_ub=b_ub, bounds=(None, None), options=dict(_TIGHT, presolve=False))
-    if res["status"] != 0:
-        # last resort for badly scaled problems (which the solver gives up on or reports as unbounded):
-        # equilibrate rows and columns, scale the objective to unit size, and rescale the optimum
-        a_mat = np.asarray(a_ub, dtype=float)
-        b_vec = np.asarray(b_ub, dtype=float)
-        c_vec = np.asarray(c, dtype=float).reshape(-1)
-        row_scale = np.abs(a_mat).max(axis=1)
-        row_scale[row_scale == 0] = 1
-        a_mat = a_mat / row_scale[:, None]
-        col_scale = np.abs(a_mat).max(axis=0)
-        col_scale[col_scale == 0] = 1
-        c_vec = c_vec / col_scale
-        obj_scale = float(np.max(np.abs(c_vec)))
-        if obj_scale > 0:
-            scaled = linprog(
-                c=c_vec / obj_scale,
-                A_ub=a_mat / col_scale[None, :],
-                b_ub=b_vec / row_scale,
-                bounds=(None, None),
-                options=dict(_TIGHT, presolve=False),
-            )
-            if scaled["status"] == 0:
-                scaled["fun"] = scaled["fun"] * obj_scale
-                scaled["x"] = scaled["x"] / col_scale
-                res = scaled
     return res
 
 
